@@ -14,13 +14,16 @@ RULE = ("kernel-shaped inputs drawn from the theorem's domain and printed by the
         "titles (space-separated words, no/space/NUL terminator), zombie flag; environment blocks (NAME=value / '='-less / "
         "empty-NAME entries, duplicates, '=' in values, tails: none, empty entry + garbage, unterminated); exe/cwd link targets "
         "(linked/unlinked, NUL garbage, literal ' (deleted)' names, stat oracle); exe() called twice on one object with the kernel "
-        "state changed in between (link withheld/present, cmdline()[0] absolute/relative, executable or not); (comm, argv) pairs "
+        "state changed in between (link present / withheld with ENOENT or ESRCH / denied with EACCES; cmdline()[0] an executable file, a "
+        "plain 0644 file, a searchable 0755 directory incl. '/' and a trailing-slash directory, dangling, relative -- each really put on "
+        "disk, isabs/isfile/access(X_OK) answered separately by the file system); (comm, argv) pairs "
         "around the 15-byte boundary (ASCII, multi-byte, truncated inside a character); a malformed stream (raw cmdline/environ "
         "bytes, ENOENT/ESRCH/EACCES on files and links, vanished /proc entries, zombies) compared with the model only; raw byte "
         "strings for the UTF-8/surrogateescape decoder. Exhaustive: all argv of <=3 args over {'', 'a', ' ', 'a b', 'a '} and all "
         "titles of <=3 words over {'', 'a', 'b'} x 3 terminators. Non-trivial = non-empty input; distinct = canonical case hash.")
-TRUSTED = ["correspondence harness props/C12.py + pv/ (fake /proc tree; os.readlink, os.stat, os.access and psutil._common.open "
-           "are patched to present the case's link targets, stat answers and open() errors)",
+TRUSTED = ["correspondence harness props/C12.py + pv/ (fake /proc tree; os.readlink and psutil._common.open wrapped for link targets and "
+           "open() errors; os.stat/os.access wrapped only to redirect a case path to its real on-disk object or to 'missing', and to answer "
+           "path_exists_strict() on link targets; objects below the placeholder directory are reached unpatched)",
            "formats of /proc/<pid>/cmdline, environ, exe, cwd and stat comm (proc(5)) transcribed in coq/C12/Spec.v",
            "hand-written model coq/C12/Model.v, UTF-8/surrogateescape decoder and universal-newline reader coq/C12/Lib.v "
            "(tied to the code by the correspondence run only)"]
@@ -30,9 +33,11 @@ ASSUMPTIONS = ["CPython semantics of str.split/find/endswith/startswith, text-mo
                "the filesystem encoding is utf-8 with surrogateescape (checked by the worker at start)",
                "parsing of the stat record (comm between the parentheses, state letter) is C06's subject; here comm and the zombie flag are inputs"]
 EXHAUSTIVE = {
-    "quick": "all 156 argv of <=3 args over {'', 'a', ' ', 'a b', 'a '}; all 117 titles of <=3 words over {'', 'a', 'b'} x {none, space, NUL}",
+    "quick": "all 156 argv of <=3 args over {'', 'a', ' ', 'a b', 'a '}; all 117 titles of <=3 words over {'', 'a', 'b'} x {none, space, NUL}; "
+             "exe() fallback: 15 (cmdline()[0], kind on disk) pairs x {ENOENT, ESRCH, EACCES}",
     "thorough": "all 156 argv of <=3 args over {'', 'a', ' ', 'a b', 'a '}; all 117 titles of <=3 words over {'', 'a', 'b'} x {none, space, NUL}; "
-                "all 3906 raw cmdline files of <=5 bytes over {NUL, ' ', 'a', CR, LF}",
+                "all 3906 raw cmdline files of <=5 bytes over {NUL, ' ', 'a', CR, LF}; exe() fallback: 15 (cmdline()[0], kind on disk) pairs x "
+                "{ENOENT, ESRCH, EACCES}",
 }
 PID = 4242
 
@@ -269,7 +274,7 @@ UDEC_ALPHA = [0x41, 0x7f, 0x80, 0xbf, 0xc0, 0xc1, 0xc2, 0xc3, 0xa9, 0xdf, 0xe0, 
 
 
 def gen_cases(rng, tier):
-    n = {"quick": 200, "thorough": 3000, "search": 400}[tier]
+    n = {"quick": 150, "thorough": 3000, "search": 400}[tier]
     cases = []
     if tier != "search":
         ex = [b"", b"a", b" ", b"a b", b"a "]
@@ -475,8 +480,11 @@ def _steps_of(case, coq):
 
 
 class _Kernel:
-    """Presents one pview to the imported psutil: real files for stat/cmdline/environ, patched os.readlink/os.stat/os.access/open
-    for link targets (any bytes, NULs), stat answers and errno injection."""
+    """Presents one pview to the imported psutil. Real on disk: stat/cmdline/environ files of the fake /proc entry and every
+    object cmdline()[0] may point to (executable file 0755, plain file 0644, directory 0755). Paths below PVBASE are rewritten
+    to a real directory of the worker and reached by the unpatched os.stat/os.access; any other listed path is redirected by the
+    os.stat/os.access wrappers to its real object, so that S_ISREG and X_OK are always answered by the file system itself.
+    os.readlink and psutil._common.open are wrapped for link targets (any bytes, NULs) and errno injection."""
 
     def __init__(self, psutil, root, work):
         self.psutil, self.root, self.work = psutil, root, work
@@ -484,7 +492,9 @@ class _Kernel:
         self.regfile = os.path.join(work, "regfile")
         with open(self.regfile, "wb") as f:
             f.write(b"x")
-        self.links, self.open_err, self.answers = {}, {}, {}
+        self.realbase = os.path.join(work, "base")
+        self.objdir = os.path.join(work, "objs")
+        self.links, self.open_err, self.answers, self.objs, self.missing = {}, {}, {}, {}, set()
         self.real = (os.readlink, os.stat, os.access)
 
     def install(self):
@@ -502,18 +512,26 @@ class _Kernel:
             return real_readlink(path, *a, **kw)
 
         def stat(path, *a, **kw):
-            if isinstance(path, str) and path in K.answers:
-                ans = K.answers[path]
-                if ans == "denied":
-                    raise PermissionError(13, "injected", path)
-                if ans == "missing":
+            if isinstance(path, str):
+                if path in K.answers:       # path_exists_strict() on a link target
+                    ans = K.answers[path]
+                    if ans == "denied":
+                        raise PermissionError(13, "injected", path)
+                    if ans == "missing":
+                        raise FileNotFoundError(2, "injected", path)
+                    return real_stat(K.regfile)
+                if path in K.objs:
+                    return real_stat(K.objs[path], *a, **kw)
+                if path in K.missing:
                     raise FileNotFoundError(2, "injected", path)
-                return real_stat(K.regfile)
             return real_stat(path, *a, **kw)
 
         def access(path, mode, *a, **kw):
-            if isinstance(path, str) and path in K.answers:
-                return K.answers[path] == "xfile"
+            if isinstance(path, str):
+                if path in K.objs:
+                    return real_access(K.objs[path], mode, *a, **kw)
+                if path in K.missing:
+                    return False
             return real_access(path, mode, *a, **kw)
 
         def fake_open(name, *a, **kw):
@@ -532,11 +550,35 @@ class _Kernel:
         except AttributeError:
             pass
 
+    def rebase(self, b):
+        return b.replace(PVBASE, self.realbase.encode())
+
+    def unbase(self, x):
+        """map the worker's real directory back to the placeholder in a canonical result"""
+        if isinstance(x, dict):
+            if "b" in x and len(x) == 1:
+                return {"b": h(unh(x["b"]).replace(self.realbase.encode(), PVBASE))}
+            return {k: self.unbase(v) for k, v in x.items()}
+        if isinstance(x, list):
+            return [self.unbase(v) for v in x]
+        return x
+
+    @staticmethod
+    def _make(real, kind):
+        if kind == "dir":
+            os.makedirs(real, exist_ok=True)
+            os.chmod(real, 0o755)
+        else:
+            os.makedirs(os.path.dirname(real), exist_ok=True)
+            with open(real, "wb") as f:
+                f.write(b"#!/bin/sh\n")
+            os.chmod(real, 0o755 if kind == "regx" else 0o644)
+
     def apply(self, v, op, model_cmdline):
         import shutil
         from pv import fakeproc
         d = self.d
-        self.links, self.open_err, self.answers = {}, {}, {}
+        self.links, self.open_err, self.answers, self.objs, self.missing = {}, {}, {}, {}, set()
         if not v["pdir"]:
             shutil.rmtree(d, ignore_errors=True)
         else:
@@ -553,7 +595,7 @@ class _Kernel:
                 p = os.path.join(d, name)
                 if fr[0] == "data":
                     with open(p, "wb") as f:
-                        f.write(unh(fr[1]))
+                        f.write(self.rebase(unh(fr[1])))
                 else:
                     if os.path.exists(p):
                         os.unlink(p)
@@ -561,17 +603,32 @@ class _Kernel:
                         self.open_err[p] = fr[0]
         for name in ("exe", "cwd"):
             self.links[os.path.join(d, name)] = v[name]
-        # stat()/access() answers needed by this call
-        xf = {os.fsdecode(unh(x)) for x in v["xfiles"]}
+        # the file system around cmdline()[0]
+        shutil.rmtree(self.realbase, ignore_errors=True)
+        shutil.rmtree(self.objdir, ignore_errors=True)
+        os.makedirs(self.realbase)
+        os.makedirs(self.objdir)
+        listed = {}
+        for q, kind in v["paths"]:
+            listed.setdefault(unh(q), kind)          # first entry wins, as in the model
+        for n, (q, kind) in enumerate(listed.items()):
+            if q == b"/":
+                assert kind == "dir", "the root directory is a directory"
+            elif q.startswith(PVBASE + b"/"):
+                self._make(os.fsdecode(self.rebase(q)).rstrip("/"), kind)
+            else:
+                real = os.path.join(self.objdir, "o%d" % n)
+                self._make(real, kind)
+                self.objs[os.fsdecode(q)] = real
         if op in ("exe", "cwd"):
             l = v[op]
             if l[0] == "target":
                 cut = os.fsdecode(unh(l[1]).split(b"\x00")[0])
                 self.answers[cut] = l[2]
         if op == "exe" and isinstance(model_cmdline, dict) and model_cmdline.get("t") == "Val" and model_cmdline["a"][0]:
-            a0 = os.fsdecode(unh(model_cmdline["a"][0][0]["b"]))
-            if a0 not in self.answers:
-                self.answers[a0] = "xfile" if a0 in xf else "missing"
+            a0 = unh(model_cmdline["a"][0][0]["b"])
+            if a0 not in listed and not a0.startswith(PVBASE + b"/") and b"\x00" not in a0:
+                self.missing.add(os.fsdecode(a0))    # everything not listed does not exist
 
 
 def impl_setup(env):
@@ -619,7 +676,7 @@ def impl_run(case, coq, env):
     try:
         for v, op, mc in steps:
             K.apply(v, op, mc)
-            res.append(_call(p, op))
+            res.append(K.unbase(_call(p, op)))
     finally:
         K.uninstall()
     if case["kind"] in ("cmd", "env", "link", "name"):
@@ -634,8 +691,9 @@ MANIFEST = {
             "theorem), every overwritten title splits into its words for all three terminators, an empty file gives ZombieProcess for a "
             "zombie and [] otherwise; environ() returns, for every block of NAME=value / '='-less / empty-NAME entries with any tail, a "
             "dictionary with unique keys whose lookup is the last entry of each NAME; exe()/cwd() return the dentry path for every "
-            "linked/unlinked target with or without NUL garbage, '' for a withheld link of a live process, exe() falls back to an "
-            "absolute executable cmdline()[0] and answers a second call from its cache whatever the kernel then says; name() is the kernel "
+            "linked/unlinked target with or without NUL garbage, '' for a withheld link of a live process, exe() falls back to "
+            "cmdline()[0] iff it is absolute AND a regular file AND executable (directories, plain files, dangling and relative paths "
+            "refused; AccessDenied kept when the link read was denied and the fallback does not apply) and answers a second call from its cache whatever the kernel then says; name() is the kernel "
             "name extended from cmdline()[0] at 15 bytes, whatever bytes it contains. All of this is proved for the code as it is now, "
             "without exclusions. The two statements this check first refuted (CR/CRLF translated to LF by the text-mode read of "
             "cmdline/environ; 15-byte non-ASCII names not extended; both repaired in /repo, 46827e5 and 76627f6) are kept as refuted "
